@@ -246,8 +246,12 @@ func c20Program(seed uint64, steps int) *transcript {
 				default:
 					bad = bad[:len(bad)/2]
 				}
-				_, derr := ser.Deserialize(bad, serDst)
-				t.add("deser-damaged", []byte(fmt.Sprint(derr != nil)))
+				// (not when the flipped bytes were a size varint that now declares gigabytes: the call
+				// would allocate them; decided from the bytes alone, so the same in the solo run)
+				if damageAllocatable(blob, bad) {
+					_, derr := ser.Deserialize(bad, serDst)
+					t.add("deser-damaged", []byte(fmt.Sprint(derr != nil)))
+				}
 			}
 			out, err := ser.Deserialize(blob, serDst)
 			leave(pool)
